@@ -226,6 +226,25 @@ Proof.
     rewrite D_A, app_nil_r. exact Hp.
 Qed.
 
+Theorem AB_DB y : AB (DB y) = y.
+Proof.
+  unfold DB, AB. set (p := firstn m y). set (s := skipn m y).
+  assert (Lp : length (D p) = length p) by apply D_len.
+  destruct (Nat.le_gt_cases m (length y)) as [Hle|Hgt].
+  - assert (Hp : length p = m) by (unfold p; rewrite firstn_length; lia).
+    assert (E1 : firstn m (D p ++ s) = D p).
+    { replace m with (length (D p) + 0) by lia. rewrite firstn_app_2. simpl. now rewrite app_nil_r. }
+    assert (E2 : skipn m (D p ++ s) = s).
+    { replace m with (length (D p)) by lia. rewrite skipn_app, skipn_all, Nat.sub_diag. reflexivity. }
+    rewrite E1, E2, A_D. apply firstn_skipn.
+  - assert (Hs : s = []) by (unfold s; apply skipn_all2; lia).
+    assert (Hp : p = y) by (unfold p; apply firstn_all2; lia).
+    rewrite Hs, app_nil_r. rewrite firstn_all2 by (rewrite Lp, Hp; lia). rewrite skipn_all2 by (rewrite Lp, Hp; lia).
+    rewrite A_D, app_nil_r. exact Hp.
+Qed.
+Lemma DB_len y : length (DB y) = length y.
+Proof. unfold DB. rewrite app_length, D_len. rewrite <- (firstn_skipn m y) at 3. now rewrite app_length. Qed.
+
 (* ---------- the seeding loop establishes the invariant ---------- *)
 Definition Inv01 (d:bidict) : Prop := bget d [] = Some [] /\ (forall k v, In (k,v) d -> v = A' k).
 
